@@ -77,7 +77,7 @@ ObsReal(rec, k) ==
       acs |-> UNION {{[s |-> s, t |-> Frames(rec, s)[i].topic, src |-> Frames(rec, s)[i].src,
                        want |-> Frames(rec, s)[i].dacs_want, given |-> Frames(rec, s)[i].dacs_given]
                       : i \in {x \in DOMAIN Frames(rec, s) : Frames(rec, s)[x].k = "pres" /\ Frames(rec, s)[x].what = "acs"
-                                                              /\ Frames(rec, s)[x].topic \in GrpTopics}} : s \in Sessions},
+                                                              /\ Frames(rec, s)[x].topic \in Topics}} : s \in Sessions},
       ackDel |-> IF rep.k = "ctrl" /\ "del" \in DOMAIN rep.params THEN rep.params.del ELSE 0,
       delmeta |-> UNION {{[s |-> s, clear |-> Frames(rec, s)[i].del.clear,
                            ids |-> UNION {IdsOf([low |-> Frames(rec, s)[i].del.delseq[j][1], hi |-> Frames(rec, s)[i].del.delseq[j][2]]) :
